@@ -216,12 +216,16 @@ def check_construction(res, rxn_dicts, names, comp, case, layer):
         res.outcomes[cls + ":WRONG-exception"] += 1
         res.violation("C05|%s|wrong-exception" % layer, "unbalanced system %r raised %s" % (rxn_dicts, got), case, got, "ValueError")
         return None
-    m = re.search(r"Composition violation \((-?\d+): (-?[0-9.]+)\)", got)
+    # the message names one or several (key: amount) pairs: at least one, and every pair named is a key some reaction really changes, by
+    # that amount (a message listing all violated keys is as good as one naming the first)
+    mm = re.search(r"Composition violation \(((?:-?\d+: -?[0-9.eE+-]+)(?:, -?\d+: -?[0-9.eE+-]+)*)\)", got)
+    pairs = [tuple(x.split(": ")) for x in mm.group(1).split(", ")] if mm else []
+    m = re.match(r"(-?\d+): (.*)", mm.group(1).split(", ")[0]) if mm else None
     allbad = {}
     for i, d in bad:
         for k, v in d.items():
             allbad.setdefault(k, set()).add(v)
-    if not m or int(m.group(1)) not in allbad or float(m.group(2)) not in {float(v) for v in allbad[int(m.group(1))]}:
+    if not pairs or any(int(k) not in allbad or float(v) not in {float(x) for x in allbad[int(k)]} for k, v in pairs):
         res.outcomes[cls + ":WRONG-key-named"] += 1
         res.violation("C05|%s|rejection-names-wrong-key" % layer, "unbalanced system %r: message %r does not name a violated key (violated: %r)" % (rxn_dicts, got, bad), case, got, bad)
     else:
